@@ -17,6 +17,18 @@ def parse_stage(prop, config="rel", extra_args=()):
             "args": ["--prop", prop] + list(extra_args), "kinds": ["parse"]}
 
 
+def hist_stages(prop, tier, config="rel", extra_args=()):
+    """quick: one BFS (small menu, depth 4). thorough: the small menu to fixpoint / state budget, then the large menu to
+    the depth the state budget allows (each level complete)."""
+    if tier != "thorough":
+        return [hist_stage(prop, config, extra_args)]
+    a = hist_stage(prop, config, list(extra_args) + ["--menu", "quick", "--deadline", "1500"])
+    a["name"] = "hist-bfs-small-menu-deep"
+    b = hist_stage(prop, config, list(extra_args) + ["--menu", "thorough", "--deadline", "1500"])
+    b["name"] = "hist-bfs-large-menu"
+    return [a, b]
+
+
 def hist_stage(prop, config="rel", extra_args=(), shards=1):
     return {"name": "hist-bfs", "driver": "drv_hist", "config": config, "sources": HIST_SRC,
             "args": ["--prop", prop, "--threads", str(vlib.NPROC)] + list(extra_args), "kinds": ["hist"],
@@ -27,6 +39,8 @@ SPECS = {}
 
 
 def simple(prop, level, rule, assumptions, stages, **kw):
+    if prop in ("C03", "C04", "C07", "C19"):
+        kw.setdefault("deadline", {"quick": 600, "thorough": 5400})
     SPECS[prop] = {"level": level, "rule": rule, "assumptions": COMMON_ASSUME + assumptions, "stages": stages}
     SPECS[prop].update(kw)
 
@@ -37,7 +51,7 @@ simple("C04", "exploration",
        "menu; each case run on ada::url and ada::url_aggregator; non-trivial = at least one parse succeeded; distinct = "
        "distinct observation tuples (hash)",
        ["oracle: the two URL types against each other (no external model)"],
-       lambda tier: [parse_stage("C04"), hist_stage("C04")])
+       lambda tier: [parse_stage("C04")] + hist_stages("C04", tier))
 
 simple("C05", "exploration",
        "same input enumeration as C04 (E-tok x bases, E-prod, E-byte); for every successful parse: parse(href) must "
@@ -52,13 +66,13 @@ simple("C07", "exploration",
        "URLs x relative refs; in every state: offsets partition href, getters = slices, reassembly = href, validate(), "
        "href_size, reparse bisimulation, copy independence; plus the parse-level enumeration",
        ["oracle: structural invariants from the statement; library's own validate()"],
-       lambda tier: [parse_stage("C07"), hist_stage("C07"), hist_stage("C07", config="dev")])
+       lambda tier: [parse_stage("C07")] + hist_stages("C07", tier) + [hist_stage("C07", config="dev", extra_args=(["--deadline", "1200"] if tier == "thorough" else []))])
 
 simple("C19", "exploration",
        "every object produced by the parse enumerations (with/without base) and every hist-bfs state, both URL types; "
        "record invariants transcribed from the statement",
        ["oracle: invariants from the statement (no external model)"],
-       lambda tier: [parse_stage("C19"), hist_stage("C19")])
+       lambda tier: [parse_stage("C19")] + hist_stages("C19", tier))
 
 simple("C08", "exploration",
        "(input, base) in I x (I_base + none): I = all strings of <=3 tokens over a 37-token alphabet aimed at the can_parse "
@@ -116,9 +130,11 @@ simple("C03", "model_checking",
        "deadline (thorough); exact-state dedup on the full observation tuple; in every new state 14 relative references are "
        "resolved by ada and by the model; states/transitions as counted; every transition is a model step replayed on the code",
        ["oracle: refurl API setters (validated on setters_tests.json 278/278) + refidna; failure-atomicity from the statement"],
-       lambda tier: [{"name": "hist-bfs-ref", "driver": "drv_hist_ref", "config": "rel", "sources": HIST_SRC + REF_SRC, "flags": REF_FLAGS,
-                      "args": ["--prop", "C03", "--threads", str(vlib.NPROC)] + (["--deadline", "2400"] if tier == "thorough" else []),
-                      "kinds": ["hist"], "shards": 1}],
+       lambda tier: [{"name": "hist-bfs-ref" + sfx, "driver": "drv_hist_ref", "config": "rel", "sources": HIST_SRC + REF_SRC, "flags": REF_FLAGS,
+                      "args": ["--prop", "C03", "--threads", str(vlib.NPROC)] + extra, "kinds": ["hist"], "shards": 1}
+                     for sfx, extra in ([("", [])] if tier != "thorough" else
+                                        [("-small-menu-deep", ["--menu", "quick", "--deadline", "1500"]),
+                                         ("-large-menu", ["--menu", "thorough", "--deadline", "1500"])])],
        needs_models=True)
 
 SCHED_TSAN_ENV = {"TSAN_OPTIONS": "exitcode=66 halt_on_error=1 report_signal_unsafe=0 suppressions=" +
